@@ -20,6 +20,8 @@ import (
 	"verif/vshim/vtime"
 )
 
+var errDialRefused = fmt.Errorf("dial refused (injected)")
+
 // ccfg is one HTTP client scenario: n pipelined Do calls on one ClientConn against a scripted
 // server that answers `answers` of them in order and then closes / stays silent.
 type ccfg struct {
@@ -30,10 +32,16 @@ type ccfg struct {
 	timeout bool
 	threads int // 1: all Do calls from one thread; 2: two callers
 	p       int
+	// dialFail: the first dial fails; the connection object is then used again
+	dialFail bool
 }
 
 func (c ccfg) name() string {
-	return fmt.Sprintf("%s client n=%d answers=%d then=%s timeout=%v callers=%d", c.mode, c.n, c.answers, c.then, c.timeout, c.threads)
+	d := ""
+	if c.dialFail {
+		d = " first-dial-fails"
+	}
+	return fmt.Sprintf("%s client n=%d answers=%d then=%s timeout=%v callers=%d%s", c.mode, c.n, c.answers, c.then, c.timeout, c.threads, d)
 }
 
 func clientBody(c ccfg) func() {
@@ -62,7 +70,12 @@ func clientBody(c ccfg) func() {
 		if c.timeout {
 			cc.Timeout = 5 * time.Second
 		}
+		dials := 0
 		cc.Dial = func(network, addr string) (net.Conn, error) {
+			dials++
+			if c.dialFail && dials == 1 {
+				return nil, errDialRefused
+			}
 			conn, p := ekit.Stream(false, 1<<20, 1<<20)
 			peer = p
 			// ClientConn sets a read deadline on the dialed connection before it adds it to the
@@ -94,7 +107,30 @@ func clientBody(c ccfg) func() {
 				o.tags = append(o.tags, string(b))
 			})
 		}
-		if c.threads == 1 {
+		if c.dialFail {
+			// request "fail" is issued first and must get exactly one callback with an error; the
+			// numbered requests follow on the same ClientConn
+			failCalls := 0
+			var failGot []string
+			vsched.GoNamed("caller0", func() {
+				req, _ := http.NewRequest("GET", "http://127.0.0.1:80/fail", nil)
+				cc.Do(req, func(res *http.Response, conn net.Conn, err error) {
+					failCalls++
+					if err == nil {
+						b, _ := io.ReadAll(res.Body)
+						failGot = append(failGot, string(b))
+					}
+				})
+				for i := 0; i < c.n; i++ {
+					do(i)
+				}
+			})
+			defer func() {
+				if failCalls != 1 || len(failGot) > 0 {
+					vsched.Fail("client-failed-request-callback|the request whose dial failed had its callback invoked %d times and received responses %v (want exactly one call with an error)", failCalls, failGot)
+				}
+			}()
+		} else if c.threads == 1 {
 			vsched.GoNamed("caller0", func() {
 				for i := 0; i < c.n; i++ {
 					do(i)
